@@ -1,6 +1,6 @@
 import math
-from .types import Quantity, is_number, get_external_type_name, Array
-from .functions import dispatch
+from .types import Quantity, is_number, get_external_type_name, Array, Combinatoric
+from .functions import dispatch, resolve_combinatoric
 from .units import lookup_unit, QSPACE, InvalidPrefixError
 from .probability import ComparisonOp
 
@@ -96,6 +96,8 @@ def make_quantity(magnitude, unit_signature):
     if not is_number(magnitude):
         raise EvalError(f"Tried to add units on top of existing units. Only a magnitude can be tagged with units.")
     qv, multiple, offset = compose_units(unit_signature)
+    if isinstance(magnitude, Combinatoric):
+        magnitude = resolve_combinatoric(magnitude)
     return Quantity(multiple*magnitude + offset, qv)
 
 def convert_quantity(quantity, unit_sig):
